@@ -1666,7 +1666,19 @@ func hasSelfTarget(sc *Scenario) bool {
 // with GOMAXPROCS varied; returns the distinct fingerprints.
 // outcomes seen before / after the poisoning of the process in the last nfold
 var lastBefore, lastAfter map[string]bool
+var perHeight map[uint64]map[string]bool // GlobalHeights scenarios: outcomes per process height
 var poisonRng *hx.Rng
+
+func markHeight(sc *Scenario, i int, fp string) {
+	if len(sc.GlobalHeights) == 0 {
+		return
+	}
+	g := sc.GlobalHeights[i%len(sc.GlobalHeights)]
+	if perHeight[g] == nil {
+		perHeight[g] = map[string]bool{}
+	}
+	perHeight[g][fp] = true
+}
 
 func mark(i, n int, fp string) {
 	if i < n/2 {
@@ -1676,7 +1688,20 @@ func mark(i, n int, fp string) {
 	}
 }
 
+// uniqHashes: outcomes, receipts and observations are matched to transactions by hash
+func uniqHashes(sc *Scenario) {
+	seen := map[string]bool{}
+	for i := range sc.Txs {
+		for k := 0; seen[sc.Txs[i].Hash]; k++ {
+			h := common.Sha256([]byte(sc.Txs[i].Hash + strconv.Itoa(k)))
+			sc.Txs[i].Hash = hex.EncodeToString(h)
+		}
+		seen[sc.Txs[i].Hash] = true
+	}
+}
+
 func nfold(sc *Scenario, n int) map[string]int {
+	uniqHashes(sc)
 	// the parent state is written under the scenario's own configuration (InsertMiner consults flags)
 	if len(sc.GlobalHeights) > 0 {
 		applyFlags(sc, sc.GlobalHeights[0], true)
@@ -1694,6 +1719,13 @@ func nfold(sc *Scenario, n int) map[string]int {
 	defer func() { sc.Situation = orig }()
 	res := map[string]int{}
 	lastBefore, lastAfter = map[string]bool{}, map[string]bool{}
+	perHeight = map[uint64]map[string]bool{}
+	// retention: the block object and the outcome of one early run are kept; the same block object
+	// (already sorted in place, same transaction objects) is executed again later, and the kept
+	// receipts / evicted list are re-read after all later executions — they must not have changed
+	var keptBlock *types.Block
+	var keptOut *outcome
+	keptFp := ""
 	procs := []int{1, 2, 4, runtime.NumCPU()}
 	for i := 0; i < n; i++ {
 		if i == n/2 && len(sc.GlobalHeights) == 0 && poisonRng != nil {
@@ -1724,11 +1756,59 @@ func nfold(sc *Scenario, n int) map[string]int {
 			fp := hx.Guard(func() string { return execOnce(sc, root2, t2).fingerprint() })
 			res[fp]++
 			mark(i, n, fp)
+			markHeight(sc, i, fp)
+			continue
+		}
+		if i == 1 && len(sc.GlobalHeights) == 0 {
+			fp := hx.Guard(func() string {
+				st, _ := account.NewAccountDB(root, t)
+				keptBlock = mkBlock(sc)
+				r0, ev, txs, rc := core.VerifC01Execute(st, keptBlock, situationOf(sc))
+				keptOut = &outcome{r0, ev, rc, st, txs}
+				return keptOut.fingerprint()
+			})
+			keptFp = fp
+			res[fp]++
+			mark(i, n, fp)
+			continue
+		}
+		if i%8 == 5 && keptBlock != nil && sc.Situation == orig {
+			// reference: fresh objects carrying the same transactions in the order the kept block has
+			// NOW (sort.Sort worked in place; with a Less that is no strict weak order, sorting a second
+			// time may legitimately give another order — that is another input list, not aliasing)
+			ordered := *sc
+			ordered.Txs = nil
+			byHash := map[string]TxS{}
+			for _, x := range sc.Txs {
+				byHash[x.Hash] = x
+			}
+			for _, tx := range keptBlock.Transactions {
+				ordered.Txs = append(ordered.Txs, byHash[hex.EncodeToString(tx.Hash.Bytes())])
+			}
+			want := hx.Guard(func() string { return execOnce(&ordered, root, t).fingerprint() })
+			fp := hx.Guard(func() string {
+				st, _ := account.NewAccountDB(root, t)
+				r0, ev, txs, rc := core.VerifC01Execute(st, keptBlock, situationOf(sc))
+				return outcome{r0, ev, rc, st, txs}.fingerprint()
+			})
+			if fp != want && !strings.HasPrefix(want, "PANIC") {
+				res["REUSED-BLOCK-OBJECT "+fp]++
+			}
 			continue
 		}
 		fp := hx.Guard(func() string { return execOnce(sc, root, t).fingerprint() })
 		res[fp]++
 		mark(i, n, fp)
+		markHeight(sc, i, fp)
+	}
+	if keptOut != nil && !strings.HasPrefix(keptFp, "PANIC") {
+		// inputs mutated after the fact must not reach results handed out earlier
+		for _, tx := range keptBlock.Transactions {
+			tx.ExtraData, tx.Data, tx.Source = "mutated", "mutated", "0xmutated"
+		}
+		if now := keptOut.fingerprint(); now != keptFp {
+			res["RETAINED-RESULT-CHANGED "+now]++
+		}
 	}
 	runtime.GOMAXPROCS(runtime.NumCPU())
 	return res
@@ -1737,8 +1817,29 @@ func nfold(sc *Scenario, n int) map[string]int {
 // classify names the *class* of a violation from the scenario and from what differs between the
 // outcomes (fingerprint = "root=… ev=… rc=…").
 func classify(sc *Scenario, res map[string]int) (string, string) {
+	for k := range res {
+		if strings.HasPrefix(k, "CONCURRENT ") {
+			return "concurrent-execution-differs", "a block executed while other blocks are being executed by other goroutines gave another result than alone"
+		}
+	}
+	for k := range res {
+		if strings.HasPrefix(k, "REUSED-BLOCK-OBJECT") || strings.HasPrefix(k, "RETAINED-RESULT-CHANGED") {
+			return "aliasing-across-executions", "executing the same block object again, or mutating the inputs afterwards, changed a result (shared mutable state across executions)"
+		}
+	}
 	if len(sc.GlobalHeights) > 0 {
-		return "flags-from-process-chain-height", "proposal flags are read from common.GetBlockHeight() (the node's own chain top), not from the header being executed"
+		// the recorded finding only explains a difference BETWEEN process heights; runs at one and the
+		// same process height that disagree are something else and must not hide behind its key
+		single := true
+		for _, m := range perHeight {
+			if len(m) > 1 {
+				single = false
+			}
+		}
+		if single {
+			return "flags-from-process-chain-height", "proposal flags are read from common.GetBlockHeight() (the node's own chain top), not from the header being executed"
+		}
+		return "nondeterministic-execution", "runs at the same process height gave different results"
 	}
 	if len(lastBefore) == 1 && len(lastAfter) == 1 {
 		same := true
@@ -1903,6 +2004,60 @@ func forceMinerTxs(r *hx.Rng, sc *Scenario) {
 	}
 }
 
+
+// concurrentBatch (evidence, not proof): K different blocks are executed by K goroutines at the same
+// time — as a node does when it casts in a goroutine while verifying incoming blocks — and every
+// result must equal the one the same block gives when executed alone.
+func concurrentBatch(r *hx.Rng, k, rounds int, report func(sc *Scenario, res map[string]int)) int {
+	var scs []*Scenario
+	for i := 0; i < k; i++ {
+		var sc *Scenario
+		if i%2 == 0 {
+			sc = genEvmScenario(r, 9000+i)
+		} else {
+			sc = genScenario(r, 9000+i, true)
+			widen(r, sc)
+		}
+		sc.Name = fmt.Sprintf("conc-%d-%s", i, sc.Name)
+		sc.Flags, sc.P026, sc.P004, sc.P010, sc.P019, sc.P025, sc.Config = "111111", true, false, false, false, 0, ""
+		scs = append(scs, sc)
+	}
+	applyFlags(scs[0], 1000, false)
+	type prep struct {
+		root common.Hash
+		t    account.AccountDatabase
+		seq  string
+	}
+	ps := make([]prep, k)
+	for i, sc := range scs {
+		root, t := buildParent(sc)
+		ps[i] = prep{root, t, hx.Guard(func() string { return execOnce(sc, root, t).fingerprint() })}
+	}
+	evals := k
+	for round := 0; round < rounds; round++ {
+		got := make([]string, k)
+		var wg sync.WaitGroup
+		for i := range scs {
+			wg.Add(1)
+			go func(i int) {
+				defer wg.Done()
+				got[i] = hx.Guard(func() string { return execOnce(scs[i], ps[i].root, ps[i].t).fingerprint() })
+			}(i)
+		}
+		wg.Wait()
+		evals += k
+		for i := range scs {
+			if got[i] != ps[i].seq {
+				concDiff = true
+				report(scs[i], map[string]int{"SEQUENTIAL " + ps[i].seq: 1, "CONCURRENT " + got[i]: 1})
+			}
+		}
+	}
+	return evals
+}
+
+var concDiff bool
+
 func search(a map[string]string, r *hx.Rng) {
 	n := hx.ArgInt(a, "n", 64)
 	cases := hx.ArgInt(a, "cases", 150)
@@ -1926,7 +2081,13 @@ func search(a map[string]string, r *hx.Rng) {
 			outs = append(outs, fmt.Sprintf("%dx %s", v, k))
 		}
 		sort.Strings(outs)
-		viols = append(viols, violation{key, desc, sc, outs})
+		v := violation{key, desc, sc, outs}
+		viols = append(viols, v)
+		// printed and flushed when found: a time-boxed or crashing run still delivers it
+		if j, err := json.Marshal(v); err == nil {
+			fmt.Println("VIOL " + string(j))
+			os.Stdout.Sync()
+		}
 	}
 	// 1. hand-written leads first (DESIGN 6/C01)
 	for _, sc := range leadScenarios() {
@@ -1943,6 +2104,8 @@ func search(a map[string]string, r *hx.Rng) {
 		report(sc, res)
 	}
 	// 3. generated
+	// concurrent executions against sequential ones
+	evals += concurrentBatch(r.Fork(), hx.ArgInt(a, "conc", 8), hx.ArgInt(a, "rounds", 6), report)
 	kinds := map[string]int{}
 	poisonRng = r.Fork()
 	for i := 0; i < cases; i++ {
